@@ -28,7 +28,7 @@ var c18HTMLTokens = []string{
 	"<table background=\"",
 }
 
-var c18CSSTokens = []string{"color", "position", "w\\69 dth", ":", ";", "red", "url(javascript:x)", "/*", "*/", "\"", "'", "@import", "{", "}", "\\", "!important", " ", "&#59 ", "&#x3a;"}
+var c18CSSTokens = []string{"color", "position", "w\\69 dth", ":", ";", "red", "url(javascript:x)", "/*", "*/", "\"", "'", "@import", "{", "}", "\\", "!important", " ", "&#59 ", "&#x3a;", "(", ")"}
 
 var c18TextTokens = []string{"<", ">", "&", "\"", "http://a.b/c", "www.a.bc/", "(", ")", "\r", "\n", "javascript:x", "a", "'", "<script>"}
 
